@@ -35,6 +35,9 @@ CHECKS = {
  "C20": dict(level="model_checking", tech="TLA+ facet spec Stream.tla + TLC-enumerated chopping patterns (every short-write/would-block script, every chunk size and single split point, batches) on the real library + TLC trace validation",
              text="Inbound: an answer that is complete by byte count and acceptable must be delivered before the processing call returns and never earlier, whatever the chunking; outbound: every frame the virtual server reassembles is well-formed, first transmissions arrive in request order, a partial write keeps write interest and is flushed when the socket is reported writable; a truncated UDP answer continues over TCP unless IGNTC; an empty datagram has no effect. TLC validates every recorded history against the explicit spec.",
              note="Trusted: TLC, harness stream reassembly (length-prefix splitting) and frame decoding (library parser as plumbing).", ref="4/C20"),
+ "C13": dict(level="model_checking", tech="TLA+ facet spec Lookup.tla + TLC-enumerated lookup/answer-shape histories on the real library + TLC trace validation",
+             text="For getaddrinfo/gethostbyname the result must equal, as a set without duplicates, the (address, TTL, family) triples of the class-IN A/AAAA records of the accepted answers to the request's own queries restricted to the requested family, each with the requested port (or exactly the hosts-file entries / literal / loopback addresses); reverse lookups must ask exactly the reverse-map name and return PTR targets. Every reply carries unique marker addresses; TLC validates every recorded history (CNAME chains, multi-record answers, foreign-class records, sorting on/off, lookup orders b/fb/bf, hosts database) against the explicit spec.",
+             note="Trusted: TLC, harness markers. Alias lists of hostent and cname lists of addrinfo are not compared; sortlist not exercised.", ref="4/C13"),
 }
 NA_REASON = "check not built yet in this round (specification planned in DESIGN.md section 4); not claimed until its machinery exists"
 
